@@ -437,9 +437,9 @@ impl Property for C19 {
     fn run(&self, ctx: &Ctx, ev: &mut Evidence) -> Vec<Found> {
         ev.assumptions.push("the zero transaction id of deposits/withdrawals is not observable through the API (the controller never asks for it): not claimed; their sender/recipient are checked".into());
         let rule = "histories calling a probe contract that stores NUMBER, TIMESTAMP, PREVRANDAO, CHAINID, BASEFEE, GASPRICE, COINBASE, ORIGIN, CALLER, BLOCKHASH(number-k) for k in {0,1,2,255,256,257} and the answer of the txid helper, via inscription deploys/calls, signed calls and parked-then-drained signed calls (own txid), with generated timestamps, explicit and server-generated hashes, 250+ mined blocks in some cases, commits and reorgs; the slots are read back after every transaction and compared with what the harness supplied. Non-trivial = >= 3 verified transactions; evaluations are weighted by verified transactions";
-        let a = PartCfg { name: "regtest", rule, cases: ctx.tier.pick(400, 8000), max_shrink_iters: ctx.tier.pick(300, 1200) };
+        let a = PartCfg { name: "regtest", rule, cases: ctx.tier.pick(1200, 14_000), max_shrink_iters: ctx.tier.pick(300, 1200) };
         let mut found = explore(ctx, ev, &a, strategy, check);
-        let b = PartCfg { name: "signet", rule: "the same on a network where the Cancun rules apply at low heights (signet): the txid helper must be absent (empty return), everything else as above; run in worker processes configured for that network", cases: ctx.tier.pick(240, 4000), max_shrink_iters: ctx.tier.pick(300, 1200) };
+        let b = PartCfg { name: "signet", rule: "the same on a network where the Cancun rules apply at low heights (signet): the txid helper must be absent (empty return), everything else as above; run in worker processes configured for that network", cases: ctx.tier.pick(700, 8000), max_shrink_iters: ctx.tier.pick(300, 1200) };
         found.extend(explore_net(ctx, ev, &b, Some("signet"), strategy, check));
         found
     }
